@@ -251,6 +251,8 @@ def jobs(pid, tier, seed):
         js += J(pid, "std-rel", 120 if q else 6000, 150 if q else 300, timeout=600)
         js += J(pid, "std-dbg", 24 if q else 600, 60, timeout=600)
         js += J(pid, "tsan", 16 if q else 600, 40, timeout=900)
+        # compile-time dispatch (no-std arm of the client crates): their one-time initialisation differs
+        js += J(pid, "nostd-avx2", 24 if q else 600, 60, timeout=600)
         mj = J(pid, "miri", 1 if q else 4, 1, timeout=3600, part="threads")
         for k, j in enumerate(mj):
             j["env"] = {"MIRIFLAGS": "-Zmiri-many-seeds=%d..%d" % (64 * k, 64 * k + (12 if q else 32))}
